@@ -435,10 +435,15 @@ impl Iterator for ClosestBucketsIter {
                 if let Some(i) = self.next_in(i) {
                     self.state = ClosestBucketsIterState::ZoomIn(i);
                     Some(i)
-                } else {
+                } else if i.get() != 0 {
                     let i = BucketIndex(0);
                     self.state = ClosestBucketsIterState::ZoomOut(i);
                     Some(i)
+                } else {
+                    // Bucket `0` has already been yielded while zooming in (or as the
+                    // starting bucket), so continue zooming out from there.
+                    self.state = ClosestBucketsIterState::ZoomOut(i);
+                    self.next()
                 }
             }
             ClosestBucketsIterState::ZoomOut(i) => {
